@@ -204,6 +204,7 @@ def parse_schema(
     _write_hint: bool = True,
     _force: bool = False,
     _ignore_default_error: bool = False,
+    _names: Optional[Set[str]] = None,
 ) -> Schema:
     """Returns a parsed avro schema
 
@@ -232,6 +233,9 @@ def parse_schema(
     _ignore_default_error
         Internal API argument. If True, when a union has the wrong default
         value, an error will not be raised.
+    _names
+        Internal API argument. Names already defined by the other branches
+        of a top-level union
 
 
     Example::
@@ -262,6 +266,9 @@ def parse_schema(
     if named_schemas is None:
         named_schemas = {}
 
+    if _names is None:
+        _names = set()
+
     if isinstance(schema, dict) and "__fastavro_parsed" in schema:
         if "__named_schemas" in schema:
             for key, value in schema["__named_schemas"].items():
@@ -275,7 +282,7 @@ def parse_schema(
                 "",
                 expand,
                 _write_hint,
-                set(),
+                _names,
                 named_schemas,
                 NO_DEFAULT,
                 _ignore_default_error,
@@ -287,7 +294,7 @@ def parse_schema(
             "",
             expand,
             _write_hint,
-            set(),
+            _names,
             named_schemas,
             NO_DEFAULT,
             _ignore_default_error,
@@ -305,6 +312,7 @@ def parse_schema(
                 _write_hint=_write_hint,
                 _force=_force,
                 _ignore_default_error=_ignore_default_error,
+                _names=_names,
             )
             for s in schema
         ]
@@ -314,7 +322,7 @@ def parse_schema(
             "",
             expand,
             _write_hint,
-            set(),
+            _names,
             named_schemas,
             NO_DEFAULT,
             _ignore_default_error,
